@@ -2,6 +2,7 @@
 // plan <-> JSON conversion.  DESIGN.md §2.6, §2.7.
 #include <pthread.h>
 #include <signal.h>
+#include <sys/time.h>
 #include <stdio.h>
 #include <stdlib.h>
 #include <string.h>
@@ -184,6 +185,23 @@ static void run_spec(const RunSpec& spec) {
   self = nullptr;
 }
 
+// Busy hang in code without scheduling points (a plain loop that never ends, in
+// babylon or in an oracle walking what babylon handed out): the token holder
+// burns CPU and the step counter stands still. Measured in *CPU time of this
+// process* (ITIMER_PROF), so machine load cannot trigger it; a thread blocked in
+// a real primitive that escaped the simulator burns no CPU and is still
+// reported as an infrastructure error by the runner's wall-clock watchdog.
+static volatile uint64_t g_prof_last = ~0ULL;
+static volatile int g_prof_same = 0;
+static void prof_handler(int) {
+  if (!G.active) { g_prof_same = 0; g_prof_last = ~0ULL; return; }
+  uint64_t cur = G.steps ^ (G.hash << 20);
+  if (cur != g_prof_last) { g_prof_last = cur; g_prof_same = 0; return; }
+  if (++g_prof_same >= 10)
+    finish(1, "hang", tl_crash_site ? tl_crash_site : "busy-loop-without-scheduling-point",
+           "the running thread consumed 10 s of CPU time without reaching a scheduling point (endless loop over plain memory)");
+}
+
 [[noreturn]] void child_main(const RunSpec* specs, size_t n, int out_fd) {
   G.out_fd = out_fd;
   heap_child_init();
@@ -196,6 +214,17 @@ static void run_spec(const RunSpec& spec) {
   sigaction(SIGFPE, &sa, nullptr);
   sigaction(SIGILL, &sa, nullptr);
   sigaction(SIGABRT, &sa, nullptr);
+  {
+    struct sigaction sp;
+    memset(&sp, 0, sizeof sp);
+    sp.sa_handler = prof_handler;
+    sp.sa_flags = SA_RESTART;
+    sigaction(SIGPROF, &sp, nullptr);
+    struct itimerval it;
+    it.it_interval.tv_sec = 1; it.it_interval.tv_usec = 0;
+    it.it_value = it.it_interval;
+    setitimer(ITIMER_PROF, &it, nullptr);
+  }
   // glibc's __libc_single_threaded flips on the first pthread_create and makes
   // libstdc++ switch shared_ptr reference counts from plain to atomic ops (=
   // scheduling points). Flip it now, so that the first run of a process sees
